@@ -228,6 +228,33 @@ theorem deleted_absent (s : Store) (hi : Inv s) (id : Nat) : lookup (delete s id
       simpa using this
     rw [this]; rfl
 
+/-- deleting an absent id any number of times changes nothing and never succeeds -/
+theorem deleteN_absent (s : Store) (id : Nat) (h : lookup s id = none) : ∀ n, deleteN s id n = (s, 0) := by
+  intro n
+  induction n with
+  | zero => rfl
+  | succ n ih =>
+    have h1 : (delete s id).2 = .error .keyNotFound := by simp [delete, h]
+    have h2 : (delete s id).1 = s := by simp [delete, h]
+    unfold deleteN
+    simp only [h1, h2, ih, Nat.add_zero]
+
+/-- **a delete race**: of any number `n + 1` of simultaneous deletions of one key id exactly one succeeds when the key is
+stored and none otherwise, and the key is gone afterwards (the store serialises them under its write lock) -/
+theorem delete_race (s : Store) (hi : Inv s) (id n : Nat) :
+    (deleteN s id (n + 1)).2 = (if (lookup s id).isSome then 1 else 0) ∧ lookup (deleteN s id (n + 1)).1 id = none := by
+  cases hl : lookup s id with
+  | none =>
+    rw [deleteN_absent s id hl]
+    exact ⟨by simp, hl⟩
+  | some j =>
+    have hgone := deleted_absent s hi id
+    have hok : (delete s id).2 = .ok () := by simp [delete, hl]
+    have hrest := deleteN_absent _ id hgone n
+    unfold deleteN
+    simp only [hrest, hok, Option.isSome_some, if_true, Nat.add_zero]
+    exact ⟨trivial, hgone⟩
+
 theorem step_keeps_absent (s : Store) (hi : Inv s) (id : Nat) (hle : id ≤ s.next) (h : lookup s id = none) (op : Op) :
     lookup (step s op) id = none ∧ id ≤ (step s op).next := by
   have app : ∀ j, lookup ⟨s.keys ++ [(s.next + 1, j)], s.next + 1⟩ id = none := by
